@@ -37,7 +37,7 @@ TYPES = [
     ('HttpHeaderFieldValueContentType', ';', 1, ('case', 'ws', 'quote:charset'),
      'RFC 7231 s3.1.1.1: parameter names case-insensitive, OWS ";" OWS, value token or quoted-string'),
     ('HttpHeaderFieldValueXXSSProtection', ';', 1, ('ws',), 'de-facto: "1; mode=block" with optional spaces'),
-    ('HttpHeaderFieldValueContentSecurityPolicy', ';', 0, ('case', 'ws', 'empty', 'order'),
+    ('HttpHeaderFieldValueContentSecurityPolicy', ';', 0, ('case', 'ws', 'ws_inner', 'empty', 'order'),
      'CSP3 s2.2.1: directive names ASCII case-insensitive, leading/trailing whitespace stripped, empty directives '
      'skipped; distinct directives are independent'),
     ('DnsRecordTxtValueDmarc', ';', 2, ('ws', 'ws_eq', 'trailing', 'order', 'unknown'),
@@ -125,6 +125,13 @@ def variants_of(text, sep, fixed, rows, max_rows):
                 if (a, b) == ('', ' '):
                     continue
                 alts.append(lambda e, j, a=a, b=b: (list(e), a + sep + b, '', ''))
+        elif row == 'ws_inner':
+            # runs of ASCII white space between the members of one element's value list (CSP3 s2.2.1 / s2.3.1:
+            # required-ascii-whitespace = 1*( HTAB / SP ...))
+            for filler in ('  ', '   ', ' \t'):
+                def finner(e, j, filler=filler):
+                    return [x.replace(' ', filler) if k >= fixed else x for k, x in enumerate(e)], j, '', ''
+                alts.append(finner)
         elif row == 'ws_spf':
             for n in (2, 3):
                 alts.append(lambda e, j, n=n: (list(e), ' ' * n, '', ''))
